@@ -15,3 +15,24 @@ Theorem C09_strict_same_does_not :
   forall (l r : R) d, ((l < 0 /\ r < 0) \/ (0 < l /\ 0 < r))%R -> crossed Rops l r d = false.
 Proof. exact crossed_strict_same. Qed.
 Print Assumptions C09_strict_same_does_not.
+
+(* Per accepted step and per event function: exactly one event is recorded when `crossed` fires on the function's values
+   at the two step ends (the previous callback's values `hs_prev` and the current ones), none otherwise; and the values
+   remembered for the next step are the current ones.  For ANY number type, event functions, interpolant, root refinement
+   outcome and any configuration without terminal events (with a terminal event the run stops at it: C10).
+   Together with the two theorems above (real semantics of `crossed`): strictly opposite signs in the configured
+   direction give exactly one event of that function inside that step, equal strict signs give none. *)
+Require Import List.
+Require Import IVP.model.Common IVP.proofs.SolOutFacts IVP.proofs.EventCount.
+Theorem C09_one_event_per_crossing :
+  forall (F : Type) (O : Ops F) (C : hconfig (F:=F)) s xold x y sg yold,
+    no_terminal C -> (0 < hc_nevents C)%nat -> hs_yold s = Some yold -> length (hs_tev s) = hc_nevents C ->
+    let s' := fst (detect_events O C s xold x y sg) in
+    let gcurr := hc_events C x y in
+    hs_prev s' = gcurr /\
+    length (hs_tev s') = hc_nevents C /\
+    forall i, (i < hc_nevents C)%nat ->
+      length (nth i (hs_tev s') nil) =
+      (length (nth i (hs_tev s) nil) + (if crossb O C (hs_prev s) gcurr i then 1 else 0))%nat.
+Proof. exact @events_per_step. Qed.
+Print Assumptions C09_one_event_per_crossing.
